@@ -751,8 +751,99 @@ def case_cached_partial_plain_fn(ctx, i):
     graph.GRAPH_CONTEXT.tmp_static_cache = None   # do not let a leak reach the other streams of this worker
 
 
+def case_generic_pytree_attr(ctx, i, kind):
+  """Module attributes that are generic JAX pytrees holding Variables - a NamedTuple, an OrderedDict, a registered dataclass - with
+  their fields NOT in alphabetical order: the function reads and updates individual fields; the caller's Variables end up as after
+  the eager run (no field is confused with another)."""
+  import collections
+  import dataclasses
+  import jax
+  import jax.numpy as jnp
+  from flax import nnx
+  global _GP
+  try:
+    _GP
+  except NameError:
+    Affine = collections.namedtuple('Affine', ['scale', 'bias'])          # 'scale' > 'bias'
+
+    @jax.tree_util.register_dataclass
+    @dataclasses.dataclass
+    class Pair:
+      second: object
+      first: object
+    _GP = dict(Affine=Affine, Pair=Pair)
+  Affine, Pair = _GP['Affine'], _GP['Pair']
+  cont = ['namedtuple', 'odict', 'dataclass', 'namedtuple_sorted'][(i // 7) % 4]
+  calls = 1 + (i // 28) % 2
+
+  class M(nnx.Module):
+    def __init__(self):
+      a, b = nnx.Param(jnp.asarray([1.0, 2.0])), nnx.Param(jnp.asarray([10.0, 20.0]))
+      if cont == 'namedtuple':
+        self.c = Affine(scale=a, bias=b)
+      elif cont == 'odict':
+        self.c = collections.OrderedDict([('zeta', a), ('alpha', b)])
+      elif cont == 'dataclass':
+        self.c = Pair(second=a, first=b)
+      else:
+        self.c = collections.namedtuple('Sorted', ['alpha', 'beta'])(alpha=a, beta=b)   # control: alphabetical fields
+
+  def fields(m):
+    c = m.c
+    if cont == 'odict':
+      return c['zeta'], c['alpha']
+    return tuple(c)[:2] if cont != 'dataclass' else (c.second, c.first)
+
+  def f(m, x):
+    a, b = fields(m)
+    a.value = a.value * 2.0 + x        # only the FIRST declared field is scaled
+    b.value = b.value - 1.0
+    return a.value.sum() - b.value.sum()
+
+  desc = dict(transform=kind, container=cont, calls=calls)
+  with ctx.case('generic_pytree_attr', i, desc, nontrivial=cont != 'namedtuple_sorted'):
+    me, mt = M(), M()
+    x = jnp.asarray(0.5)
+    if kind == 'jit':
+      g = nnx.jit(f)
+    elif kind == 'remat':
+      g = nnx.remat(f)
+    elif kind == 'cond':
+      g = lambda m, x: nnx.cond(x > 0, f, lambda m, x: jnp.zeros(()), m, x)
+    elif kind == 'switch':
+      g = lambda m, x: nnx.switch(jnp.asarray(1), [lambda m, x: jnp.zeros(()), f], m, x)
+    elif kind == 'fori_loop':
+      def g(m, x):
+        nnx.fori_loop(0, 1, lambda j, mx: (f(mx[0], mx[1]), mx)[1], (m, x))
+        return None
+    elif kind == 'while_loop':
+      def g(m, x):
+        nnx.while_loop(lambda c: c[2] < 1, lambda c: (f(c[0], c[1]), (c[0], c[1], c[2] + 1))[1], (m, x, jnp.asarray(0)))
+        return None
+    else:
+      holder = {}
+      def g(m, x):
+        if 'fn' not in holder:
+          holder['fn'] = nnx.cached_partial(nnx.jit(f), m)
+        return holder['fn'](x)
+    same = lambda p, q: bool(np.allclose(np.asarray(p), np.asarray(q)))  # noqa: E731
+    for c in range(calls):
+      oe = f(me, x)
+      ot = g(mt, x)
+      ctx.op('nnx.%s(module with a %s attribute)' % (kind, cont))
+      if ot is not None:
+        ctx.check(same(oe, ot), 'generic_pytree_attr:output', lambda: dict(case=desc, call=c, eager=float(oe), transformed=float(ot)))
+      ae, be = fields(me)
+      at, bt = fields(mt)
+      ctx.check(same(ae.value, at.value) and same(be.value, bt.value), 'generic_pytree_attr:fields_confused',
+                lambda: dict(case=desc, call=c, eager=[np.asarray(ae.value).tolist(), np.asarray(be.value).tolist()],
+                             transformed=[np.asarray(at.value).tolist(), np.asarray(bt.value).tolist()]))
+
+
 def run(ctx):
   from flax.nnx import graph
+  for i, kind in ctx.items(['jit', 'remat', 'cond', 'switch', 'fori_loop', 'while_loop', 'cached_partial'] * 8, 'generic_pytree_attr'):
+    case_generic_pytree_attr(ctx, i, kind)
   for i in ctx.indices(6, 'cached_partial_plain_fn'):
     case_cached_partial_plain_fn(ctx, i)
   for i, kind in ctx.items(['jit', 'remat', 'cached_partial'] * 4, 'raw_array_attr'):
